@@ -413,6 +413,21 @@ func enumerateCNF(tier string, seed int64, certOnly bool, yield func(string, cor
 	}) {
 		return
 	}
+	// B3: ORDERED sequences of 4 (and 5) unit and binary clauses over 3 variables: parse-time simplification works
+	// in passes over the clause list, so what a unit found late in the list does to earlier and later clauses depends
+	// on the order (S3 has sequences up to length 3 and multisets beyond)
+	{
+		alpha := litSets(3, 1, 2)
+		b3 := []cfg{{"slice", 0, 0, 0}, {"dimacs", 0, 0, 0}}
+		if !sequences(len(alpha), 4, func(idx []int) bool { return emit("B3", pick(alpha, idx), 3, b3) }) {
+			return
+		}
+		if !certOnly || thorough {
+			if !sequences(len(alpha), 5, func(idx []int) bool { return emit("B3", pick(alpha, idx), 3, b3[:1]) }) {
+				return
+			}
+		}
+	}
 	s4max := 3
 	if thorough {
 		s4max = 5
@@ -478,7 +493,7 @@ type c01 struct{}
 func (c01) ID() string    { return "C01" }
 func (c01) Level() string { return "exploration" }
 func (c01) Rule() string {
-	return "cases = every CNF of the families T2 (n=2, all literal sequences of length 0..3 as clauses, all clause sequences), D3 (one dirty clause over 3 variables with units before/after), LL (every pair of literal sequences of length 5 over 2 variables as clauses, with no or one unit after), S3, S4, L6 (watch movement), M (conflict-rich seeds and all one-edit neighbours), R (seeded catalogue of random 2/3-CNFs over 6..10 variables with all one-edit neighbours), R3 (seeded threshold 3-CNFs over 10..14 variables) x entry point (ParseSlice, ParseSliceNb with n and n+1 declared, ParseCNF) x learned-clause limit (default, reduce at 1 or 2 stored clauses, or tight: the limit always equals the number of stored clauses); each case is executed once per heuristic choice list (decision variable/polarity, restart now, reduce now) up to the case's deviation bound; every execution is judged against the truth table of the input as written. A case is non-trivial when some execution made a decision or met a conflict, or parse-time simplification decided it with at least one unit or duplicate/tautology removal (clauses present)."
+	return "cases = every CNF of the families T2 (n=2, all literal sequences of length 0..3 as clauses, all clause sequences), D3 (one dirty clause over 3 variables with units before/after), LL (every pair of literal sequences of length 5 over 2 variables as clauses, with no or one unit after), B3 (every ORDERED sequence of 4 or 5 unit/binary clauses over 3 variables), S3, S4, L6 (watch movement), M (conflict-rich seeds and all one-edit neighbours), R (seeded catalogue of random 2/3-CNFs over 6..10 variables with all one-edit neighbours), R3 (seeded threshold 3-CNFs over 10..14 variables) x entry point (ParseSlice, ParseSliceNb with n and n+1 declared, ParseCNF) x learned-clause limit (default, reduce at 1 or 2 stored clauses, or tight: the limit always equals the number of stored clauses); each case is executed once per heuristic choice list (decision variable/polarity, restart now, reduce now) up to the case's deviation bound; every execution is judged against the truth table of the input as written. A case is non-trivial when some execution made a decision or met a conflict, or parse-time simplification decided it with at least one unit or duplicate/tautology removal (clauses present)."
 }
 func (c01) Assumptions() []string {
 	return []string{
